@@ -51,6 +51,8 @@ rmul = z3.Function('rmul', R, R, R)                  # product of two reals, kep
 sc = z3.Function('sc', R, Mat)                       # the 1 x 1 matrix [[x]]
 onesc = z3.Function('onesc', I, I, I, Core)           # np.ones([a, b, c])
 cset = z3.Function('cset', Core, I, R, Core)          # G with G[0, j, 0] = x   (for cores with r1 = r2 = 1)
+centry = z3.Function('centry', Core, I, I, I, R)       # G[a, m, b]
+cput = z3.Function('cput', Core, I, I, z3.ArraySort(I, R), Core)   # G with G[a, :, b] = w
 msum = z3.Function('msum', Core, Mat)                # np.sum(G, axis=1)
 wsum = z3.Function('wsum', Core, z3.ArraySort(I, R), Mat)   # np.einsum('rmq,m->rq', G, p)
 chain = z3.Function('chain', TT, IDX, I, Mat)        # sl(Y[0],i0) @ ... @ sl(Y[k],ik)
@@ -217,6 +219,18 @@ GROUPS['elem'] = [
       [cset(G_, j_, x_)]),
     A([G_, j_, x_, k_], z3.Implies(z3.And(d0(G_) == 1, d2(G_) == 1), sl(cset(G_, j_, x_), k_) == z3.If(k_ == j_, sc(x_), sl(G_, k_))),
       [sl(cset(G_, j_, x_), k_)]),
+]
+
+# ---- entries of cores (pattern cores built by fibre assignments  G[a, :, b] = w)
+_w = z3.Const('w_', z3.ArraySort(I, R))
+GROUPS['centry'] = [
+    A([G_, m_, n_, _w], z3.And(d0(cput(G_, m_, n_, _w)) == d0(G_), d1(cput(G_, m_, n_, _w)) == d1(G_), d2(cput(G_, m_, n_, _w)) == d2(G_)),
+      [cput(G_, m_, n_, _w)]),
+    A([G_, m_, n_, _w, k_, j_, p_], centry(cput(G_, m_, n_, _w), k_, j_, p_) == z3.If(z3.And(k_ == m_, p_ == n_), _w[j_], centry(G_, k_, j_, p_)),
+      [centry(cput(G_, m_, n_, _w), k_, j_, p_)]),
+    A([x_, G_, k_, j_, p_], centry(cscale(x_, G_), k_, j_, p_) == rmul(x_, centry(G_, k_, j_, p_)), [centry(cscale(x_, G_), k_, j_, p_)]),
+    A([x_], z3.And(rmul(x_, 0) == 0, rmul(0, x_) == 0, rmul(x_, 1) == x_, rmul(1, x_) == x_),
+      [rmul(x_, 0), rmul(0, x_), rmul(x_, 1), rmul(1, x_)]),
 ]
 
 # ---- the chain: val(Y, i) = chain(Y, i, d-1)[0, 0]
